@@ -23,6 +23,7 @@ from gens import frame, crc24q_ref
 class Ctx:
     def __init__(self, tables, seed, tier):
         self.t = tables
+        self.seed = seed
         self.rng = random.Random(seed)
         self.tier = tier
         self.b = gens.Builder(tables, self.rng)
@@ -1393,6 +1394,115 @@ def cases_C13(ctx):
         for line, ident in order:
             cs.append(case(line, "hist%d:%s" % (rep, ident), None))
     return cs
+
+
+def _table_digest():
+    """digest of the library's definition and lookup tables (deep, order-sensitive)"""
+    import hashlib
+    import importlib
+    mods = ["pyrtcm.rtcmtypes_core", "pyrtcm.rtcmtypes_get", "pyrtcm.rtcmtypes_get_msm", "pyrtcm.rtcmtypes_get_igs"]
+
+    def canon(x):
+        if isinstance(x, dict):
+            return "{" + ",".join(canon(k) + ":" + canon(v) for k, v in x.items()) + "}"
+        if isinstance(x, (list, tuple)):
+            return ("[" if isinstance(x, list) else "(") + ",".join(canon(v) for v in x) + "]"
+        if isinstance(x, (set, frozenset)):
+            return "s{" + ",".join(sorted(canon(v) for v in x)) + "}"
+        return type(x).__name__ + ":" + repr(x)
+    out = {}
+    for mn in mods:
+        m = importlib.import_module(mn)
+        for name in sorted(vars(m)):
+            v = getattr(m, name)
+            if name.isupper() and isinstance(v, (dict, list, tuple, set)):
+                out[mn.split(".")[-1] + "." + name] = hashlib.sha1(canon(v).encode("utf-8", "surrogatepass")).hexdigest()[:16]
+    return out
+
+
+def threads_run(lines, nthreads, reps, seed):
+    """parse the given ops concurrently in `nthreads` threads (minimal switch interval); returns
+    {line: set of outputs seen}"""
+    import random
+    import sys
+    import threading
+    seen = {l: set() for l in lines}
+    lock = threading.Lock()
+    old = sys.getswitchinterval()
+    sys.setswitchinterval(1e-6)
+    errs = []
+
+    def work(k):
+        r = random.Random(seed * 1000 + k)
+        mine = list(lines)
+        for _ in range(reps):
+            r.shuffle(mine)
+            for l in mine:
+                try:
+                    o = impl.eval_op(l)
+                except Exception as e:  # noqa
+                    o = "thread-exception:" + type(e).__name__
+                with lock:
+                    seen[l].add(o)
+    try:
+        ts = [threading.Thread(target=work, args=(k,)) for k in range(nthreads)]
+        for t in ts:
+            t.start()
+        for t in ts:
+            t.join(600)
+            if t.is_alive():
+                errs.append("thread did not finish")
+    finally:
+        sys.setswitchinterval(old)
+    return seen, errs
+
+
+def direct_C13(ctx, impl_):
+    """(a) parsing never modifies the definition / lookup tables; (b) concurrent parses in several
+    threads (forced switching) give, for every input, the answer a single-threaded parse gives"""
+    rng = ctx.rng
+    before = _table_digest()
+    lines = []
+    for r in some_payloads(ctx, ctx.n(len(ctx.entries), len(ctx.entries) * 3)):
+        lines.append("msg %d %s" % (rng.choice([1, 2]), hx(r["payload"])))
+    msm = [e for tn, e in ctx.entries if tn == "msm"]
+    for _ in range(ctx.n(10, 60)):
+        lvl = rng.choice("1234567")
+        fam = [e for e in msm if e["key"][3] == lvl]
+        try:
+            r0 = ctx.b.build(fam[0], "small", "random", "random")
+        except gens.BuildError:
+            continue
+        ov = {n: next(o.bits for o in r0["occs"] if o.name == n) for n in ("DF394", "DF395", "DF396")}
+        for e in fam:
+            try:
+                r = ctx.b.build(e, "small", "random", "random", overrides=ov)
+                for lab in (1, 2):
+                    lines.append("msg %d %s" % (lab, hx(r["payload"])))
+            except gens.BuildError:
+                pass
+    lines += ["msg 1 " + hx(bytes(rng.getrandbits(8) for _ in range(rng.randint(0, 5)))) for _ in range(ctx.n(20, 100))]
+    lines = sorted(set(lines))
+    ref = {l: impl_.eval_guarded(l) for l in lines}
+    nthreads, reps = ctx.n(6, 12), ctx.n(2, 6)
+    seen, errs = threads_run(lines, nthreads, reps, ctx.seed)
+    failures = []
+    for l in lines:
+        bad = [o for o in seen[l] if o != ref[l]]
+        if bad:
+            failures.append({"line": l, "extra": {"threads": nthreads, "reps": reps, "corpus": lines[:400]}, "klass": "threads",
+                             "what": "concurrent parse gave a different result than the single-threaded parse: %s vs %s" % (bad[0][:120], ref[l][:120]),
+                             "impl": bad[0][:2000], "oracle": None})
+    for e in errs:
+        failures.append({"line": lines[0], "extra": {"threads": nthreads}, "klass": "threads", "what": e, "impl": "", "oracle": None})
+    after = _table_digest()
+    for k in sorted(set(before) | set(after)):
+        if before.get(k) != after.get(k):
+            failures.append({"line": lines[0], "extra": {"table": k, "corpus": lines[:400]}, "klass": "tables",
+                             "what": "parsing modified the library table %s" % k, "impl": "", "oracle": None})
+    return {"evaluations": len(lines) * (1 + nthreads * reps), "failures": failures[:10],
+            "classes": ["threads:%d" % nthreads, "tables-unchanged:%d" % len(before)],
+            "threads": nthreads, "thread_ops": len(lines) * nthreads * reps, "tables_watched": len(before)}
 
 
 def cases_C10(ctx):
